@@ -92,13 +92,17 @@ Proof.
   split; [vm_compute; reflexivity|]. split; discriminate.
 Qed.
 
-(* C10: text after a block start is dropped, a comment mentioning an include becomes a live
-   include, an unbalanced end marker is blanked (C10-formatter-drops-text) *)
+(* C10: text after a block start is dropped and an unbalanced end marker is blanked
+   (C10-formatter-drops-text); a comment that mentions an include is kept as it is since
+   IncludeRegex is anchored (repaired in /repo, fix: 597d59c) *)
 Theorem format_keeps_text_refuted :
   process_line $"##!> cmdline unix # why" 0 = (Some $"##!> cmdline unix", 1%nat) /\
-  process_line $"##! note ##!> include inc" 0 = (Some $"##!> include inc", 0%nat) /\
   process_line $"##!<" 0 = (None, 0%nat).
 Proof. repeat split; vm_compute; reflexivity. Qed.
+
+Example comment_mentioning_include_kept :
+  process_line $"##! note ##!> include inc" 0 = (Some $"##! note ##!> include inc", 0%nat).
+Proof. vm_compute. reflexivity. Qed.
 
 Example format_example :
   fmt $"##!+ i
